@@ -878,7 +878,13 @@ class Engine(object):
                 env2[nm] = self.snapshot(ex.spec_eval(expr, env2))
             for path, t in (contract.get("havoc") or {}).items():
                 self.havoc_path(ex, env2, path, t)
-            res = self.fresh_of_type(ex, contract.get("returns", "None"), "ret_" + fq.rsplit(".", 1)[-1], env)
+            res = None
+            for (nm, e) in self.norm_named(contract.get("ensures"), "post"):
+                m = re.fullmatch(r"\s*same_object\(\s*result\s*,\s*([A-Za-z_][\w.]*)\s*\)\s*", e)
+                if m and nm in keep:
+                    res = ex.spec_eval(m.group(1), env2)      # 'returns X itself': hand X back
+            if res is None:
+                res = self.fresh_of_type(ex, contract.get("returns", "None"), "ret_" + fq.rsplit(".", 1)[-1], env)
             env2["result"] = res
             for (nm, e) in self.norm_named(contract.get("ensures"), "post"):
                 if nm in keep:      # the state clauses of the callee the caller's argument needs (assuming less is sound)
@@ -887,6 +893,9 @@ class Engine(object):
                         ex.ctx.assume(ex.spec_bool(e, env2))
                     finally:
                         ex.ctx.assume_mode = False
+            if keep and not ex.ctx.feasible(z3.BoolVal(True)):
+                raise Unsupported("the clauses assumed for %s (event view) are inconsistent with the state at this call "
+                                  "(everything after it would be proved vacuously)" % fq)
             return res
         cases = contract.get("cases")
         if cases:
